@@ -19,6 +19,7 @@ Cut(s, a, b) == IF a > b THEN <<>> ELSE SubSeq(s, a, b)
 Rest(s, o)   == Cut(s, o + 1, Len(s))
 Contains(s, x) == \E i \in DOMAIN s : s[i] = x
 Rep(n, x) == [i \in 1..n |-> x]
+V4Mapped(a) == <<0, 0, 0, 0, 0, 0, 0, 0, 0, 0, 255, 255>> \o a     \* 16-octet form of an IPv4 address
 
 \* ---- server profiles -------------------------------------------------------------------
 User == <<117, 115, 114>>          \* "usr"
@@ -135,12 +136,96 @@ SplitHP(s) ==
        IF Cardinality(co) # 1 \/ Contains(s, 91) \/ Contains(s, 93) THEN bad
        ELSE LET k == CHOOSE i \in co : TRUE IN [ok |-> TRUE, host |-> Cut(s, 1, k - 1), port |-> Rest(s, k)]
 
+\* ---- ADDRESS VALUE CLASSES (round 5) ----------------------------------------------------------
+\* RFC 1928 assigns every 4 / 16 / 1+n octets an address; implementations hand addresses on as TEXT, and text
+\* has special cases exactly where the octets do.  Representatives (octets) of the value classes:
+\*   IPv4  gen 10.1.2.3, zero 0.0.0.0, bcast 255.255.255.255, vdns 10.0.0.1 (the client's virtual DNS address),
+\*         loop 127.0.0.1
+\*   IPv6  gen 2001:db8::1, unspec ::, loop ::1, mapped ::ffff:8.8.4.4 (IPv4-mapped), mapvdns ::ffff:10.0.0.1,
+\*         compat ::8.8.4.4 (IPv4-compatible), linklocal fe80::1 (no zone), zrun 2001:db8:0:0:1:0:0:1 (two zero
+\*         runs), lead0 1:2:3:4:5:6:7:8 (leading zeros in every group, nothing to compress), full ffff:...:ffff
+\*   name  name "aaa..", colon ":::..", num "111.." (numeric looking), v4lit "1.2.3.4", v6lit "::1" (canonical IP
+\*         literals sent as a name), v6alt "0::1" (IP literal, not the canonical spelling), maplit "::ffff:1.2.3.4",
+\*         lead0 "01.2.3.4" (looks like an IP literal, is none), dot "aa.." + "." (trailing dot), upper "AAA.."
+V4Val(c) == CASE c = "zero" -> <<0, 0, 0, 0>> [] c = "bcast" -> <<255, 255, 255, 255>> [] c = "vdns" -> <<10, 0, 0, 1>>
+              [] c = "loop" -> <<127, 0, 0, 1>> [] OTHER -> <<10, 1, 2, 3>>
+V6Val(c) == CASE c = "unspec"    -> Rep(16, 0)
+              [] c = "loop"      -> Rep(15, 0) \o <<1>>
+              [] c = "mapped"    -> Rep(10, 0) \o <<255, 255, 8, 8, 4, 4>>
+              [] c = "mapvdns"   -> Rep(10, 0) \o <<255, 255, 10, 0, 0, 1>>
+              [] c = "compat"    -> Rep(12, 0) \o <<8, 8, 4, 4>>
+              [] c = "linklocal" -> <<254, 128>> \o Rep(13, 0) \o <<1>>
+              [] c = "zrun"      -> <<32, 1, 13, 184, 0, 0, 0, 0, 0, 1, 0, 0, 0, 0, 0, 1>>
+              [] c = "lead0"     -> <<0, 1, 0, 2, 0, 3, 0, 4, 0, 5, 0, 6, 0, 7, 0, 8>>
+              [] c = "full"      -> Rep(16, 255)
+              [] OTHER           -> <<32, 1, 13, 184>> \o Rep(11, 0) \o <<1>>
+V4Classes == {"gen", "zero", "bcast", "vdns", "loop"}
+V6Classes == {"gen", "unspec", "loop", "mapped", "mapvdns", "compat", "linklocal", "zrun", "lead0", "full"}
+\* names whose octets are fixed by the class (the length follows); the other name classes take any length
+TxtV4   == <<49, 46, 50, 46, 51, 46, 52>>                                   \* "1.2.3.4"
+TxtV6   == <<58, 58, 49>>                                                   \* "::1"
+TxtV6A  == <<48, 58, 58, 49>>                                               \* "0::1"
+TxtMap  == <<58, 58, 102, 102, 102, 102, 58>> \o TxtV4                      \* "::ffff:1.2.3.4"
+TxtLd0  == <<48>> \o TxtV4                                                  \* "01.2.3.4"
+FixedNames == {"v4lit", "v6lit", "v6alt", "maplit", "lead0"}
+NameVal(c, n) == CASE c = "v4lit" -> TxtV4 [] c = "v6lit" -> TxtV6 [] c = "v6alt" -> TxtV6A [] c = "maplit" -> TxtMap
+                   [] c = "lead0" -> TxtLd0
+                   [] c = "colon" -> Rep(n, 58) [] c = "num" -> Rep(n, 49) [] c = "upper" -> Rep(n, 65)
+                   [] c = "dot" -> IF n = 0 THEN <<>> ELSE Rep(n - 1, 97) \o <<46>>
+                   [] OTHER -> Rep(n, 97)
+NameLen(c, n) == IF c \in FixedNames THEN Len(NameVal(c, n)) ELSE n
+
+\* the value class of concrete octets (part of every violation detail; not of the asserted case class)
+IsMapped(a) == Len(a) = 16 /\ SubSeq(a, 1, 12) = Rep(10, 0) \o <<255, 255>>
+Digit(x) == x \in 48..57
+ValClass(atyp, a) ==
+  CASE atyp = 1 /\ Len(a) = 4 ->
+         (IF a = <<0, 0, 0, 0>> THEN "zero" ELSE IF a = <<255, 255, 255, 255>> THEN "bcast"
+          ELSE IF a = <<10, 0, 0, 1>> THEN "vdns" ELSE IF a[1] = 127 THEN "loop" ELSE "gen")
+    [] atyp = 4 /\ Len(a) = 16 ->
+         (IF a = Rep(16, 0) THEN "unspec" ELSE IF a = Rep(15, 0) \o <<1>> THEN "loop"
+          ELSE IF IsMapped(a) THEN "mapped" ELSE IF SubSeq(a, 1, 12) = Rep(12, 0) THEN "compat"
+          ELSE IF a[1] = 254 /\ a[2] \in 128..191 THEN "linklocal" ELSE "gen")
+    [] atyp = 3 ->
+         (IF a = <<>> THEN "empty"
+          ELSE IF Contains(a, 58) THEN "colon"
+          ELSE IF \A i \in DOMAIN a : Digit(a[i]) THEN "num"
+          ELSE IF \A i \in DOMAIN a : Digit(a[i]) \/ a[i] = 46 THEN "dotted"
+          ELSE IF a[Len(a)] = 46 THEN "dot"
+          ELSE IF \E i \in DOMAIN a : a[i] \in 65..90 THEN "upper" ELSE "name")
+    [] OTHER -> "-"
+
+\* ---- TEXTUAL FORMS (what the parsers hand on, what the encoders read back) -----------------------
+\* A host text is a sequence: a name is its octets; the dotted quad of 4 octets b is <<256>> \o b; the IPv6 text
+\* of 16 octets b is <<257>> \o b (tags above 255 cannot collide with octets).  Two texts are the same STRING
+\* iff they are the same sequence - each renderer below is canonical per (form, octets).
+\*   RenderIP    net.IP(b).String(): an IPv4-mapped IPv6 address is printed as the dotted quad of its IPv4 form
+\*   RenderNetip netip.AddrFrom4/16(b).String(): an IPv4-mapped address stays IPv6 text ("::ffff:a.b.c.d")
+Dotted(b) == <<256>> \o b
+Colon(b)  == <<257>> \o b
+RenderIP(atyp, a)    == CASE atyp = 1 -> Dotted(a) [] atyp = 4 -> (IF IsMapped(a) THEN Dotted(SubSeq(a, 13, 16)) ELSE Colon(a))
+                          [] OTHER -> a
+RenderNetip(atyp, a) == CASE atyp = 1 -> Dotted(a) [] atyp = 4 -> Colon(a) [] OTHER -> a
+\* reading text back (net.ParseIP): the IP a text spells, in 16-octet form; <<>> = not an IP literal.
+\* Names: the table covers the model's representatives (the driver asks net.ParseIP for concrete names).
+LitIp(t) == CASE t = TxtV4  -> V4Mapped(<<1, 2, 3, 4>>)
+              [] t = TxtV6  -> Rep(15, 0) \o <<1>>
+              [] t = TxtV6A -> Rep(15, 0) \o <<1>>
+              [] t = TxtMap -> V4Mapped(<<1, 2, 3, 4>>)
+              [] OTHER -> <<>>
+TextIp(t) == IF t = <<>> THEN <<>>
+             ELSE IF t[1] = 256 THEN V4Mapped(Rest(t, 1)) ELSE IF t[1] = 257 THEN Rest(t, 1) ELSE LitIp(t)
+\* the encoder's classification of a host text (buildUDPHeader, sendReply): ParseIP(h).To4() /= nil -> ATYP 1,
+\* else ParseIP(h) /= nil -> ATYP 4, else a name
+EncodeText(t) == LET ip == TextIp(t) IN
+                 IF ip = <<>> THEN [atyp |-> 3, addr |-> t]
+                 ELSE IF IsMapped(ip) THEN [atyp |-> 1, addr |-> SubSeq(ip, 13, 16)] ELSE [atyp |-> 4, addr |-> ip]
+
 \* ---- what an observer may demand of an implementation -------------------------------------
 \* Observation o: [ok, cmd, host, ip, port, wrote, consumed, panic]
 \*   host = bytes of the host string handed to the caller, ip = its 16-byte form when that string
 \*   is an IP literal (else <<>>), wrote = all bytes written back, consumed = bytes taken from the
 \*   connection.
-V4Mapped(a) == <<0, 0, 0, 0, 0, 0, 0, 0, 0, 0, 255, 255>> \o a
 AddrSame(atyp, addr, host, ip) ==
   CASE atyp = 3 -> host = addr
     [] atyp = 1 -> ip = V4Mapped(addr)
@@ -225,37 +310,54 @@ UdpClass(u, d) == (IF u.st = "result" THEN "result" ELSE "reject-" \o u.why)
                                     \o (IF u.atyp = 3 /\ Len(d) >= 5 THEN ":dlen=" \o LenClass(d[5]) ELSE "")
                       ELSE "")
 
-\* Observation o: [ok, host, ip, port, payload, panic, rt |-> [ok, host, ip, port, payload]]
-\* rt = parse(build(parse(d))) as performed by the implementation
+\* the same destination in two parsed headers: the same triple; an IPv4-mapped IPv6 address and its IPv4 form are
+\* the same address; a NAME that spells an IP literal (nip = that address in 16-octet form, <<>> when the name is
+\* no IP literal) and that address are the same destination (RFC 1928 is silent about such names)
+NormIp(u) == CASE u.atyp = 1 -> V4Mapped(u.addr) [] u.atyp = 4 -> u.addr [] OTHER -> <<>>
+NormIpN(u, nip) == IF u.atyp = 3 THEN nip ELSE NormIp(u)
+SameDestN(v, u, nip) == /\ v.st = "result" /\ u.st = "result" /\ v.port = u.port
+                        /\ ((v.atyp = u.atyp /\ v.addr = u.addr) \/ (NormIpN(u, nip) # <<>> /\ NormIp(v) = NormIpN(u, nip)))
+SameDestU(v, u) == SameDestN(v, u, <<>>)
+
+\* Observation o: [ok, host, ip, port, payload, panic, nip, rebuilt, rt |-> [ok, host, ip, port, payload]]
+\*   rebuilt = build(parse(d)) and rt = parse(build(parse(d))) as performed by the implementation;
+\*   nip = the IP the datagram's NAME spells (see SameDestN).
+\* RoundTrip: "re-encoding a parsed header and parsing it again yields the same destination and payload".  The
+\*   destination a parser hands on is a host STRING, and the string is what the implementation identifies a
+\*   destination by (session key, virtual-DNS test): for an address the parser itself rendered from ATYP 1 / 4
+\*   octets, its own encoder and parser must reproduce exactly that string - whichever spelling it chose.  For a
+\*   name the spelling is the application's; if the encoder reads it as an IP literal the second parse may spell
+\*   that address differently (same address = same destination).
+\* ReEncode: the re-encoded header, read by the reference, names the destination and payload of the datagram.
 UdpViol(u, d, o) ==
   LET res == u.st = "result"
       outBad == IF res THEN ~o.ok /\ ~u.lenient ELSE o.ok
       fldBad == res /\ o.ok /\ ~(o.port = u.port /\ AddrSame(u.atyp, u.addr, o.host, o.ip))
       payBad == res /\ o.ok /\ o.payload # Rest(d, u.pay)
-      \* same destination: the same host string, or two IP literals of the same address
-      rtBad  == o.ok /\ ~(o.rt.ok /\ (o.rt.host = o.host \/ (o.ip # <<>> /\ o.rt.ip = o.ip))
-                          /\ o.rt.port = o.port /\ o.rt.payload = o.payload)
+      hostRT == o.rt.host = o.host \/ (u.atyp = 3 /\ o.ip # <<>> /\ o.rt.ip = o.ip)
+      rtBad  == o.ok /\ ~(o.rt.ok /\ hostRT /\ o.rt.port = o.port /\ o.rt.payload = o.payload)
+      v      == RefUdp(o.rebuilt)
+      encBad == res /\ o.ok /\ ~(/\ SameDestN(v, u, o.nip)
+                                 /\ o.rebuilt[1] = 0 /\ o.rebuilt[2] = 0
+                                 /\ Rest(o.rebuilt, v.pay) = Rest(d, u.pay))
   IN  (IF o.panic THEN {"Panic"} ELSE {})
  \cup (IF outBad THEN {"UdpOutcome"} ELSE {})
  \cup (IF fldBad THEN {"UdpFields"} ELSE {})
  \cup (IF payBad THEN {"UdpPayload"} ELSE {})
  \cup (IF rtBad THEN {"RoundTrip"} ELSE {})
+ \cup (IF encBad THEN {"ReEncode"} ELSE {})
 
 \* ---- UDP relay level: what is forwarded for a datagram / sent back for a response ---------------
 \* f: [host, ip, port, payload] as handed to the tunnel for one destination
 DestIs(u, f)        == u.st = "result" /\ f.port = u.port /\ AddrSame(u.atyp, u.addr, f.host, f.ip)
 ForwardIs(u, d, f)  == DestIs(u, f) /\ f.payload = Rest(d, u.pay)
 \* a datagram sent back to the application for a response e = [host, ip, port, payload] of destination e
-\* the same destination in two parsed headers (an IPv4-mapped IPv6 address and its IPv4 form are the same)
-NormIp(u) == CASE u.atyp = 1 -> V4Mapped(u.addr) [] u.atyp = 4 -> u.addr [] OTHER -> <<>>
-SameDestU(v, u) == /\ v.st = "result" /\ u.st = "result" /\ v.port = u.port
-                   /\ ((v.atyp = u.atyp /\ v.addr = u.addr) \/ (NormIp(u) # <<>> /\ NormIp(v) = NormIp(u)))
 \* a datagram sent back for the response `resp` to the datagram d (parsed u): d's header re-encoded + resp
-ReplyTo(g, u, resp) == LET v == RefUdp(g) IN SameDestU(v, u) /\ Rest(g, v.pay) = resp /\ g[1] = 0 /\ g[2] = 0
+ReplyTo(g, u, nip, resp) == LET v == RefUdp(g) IN SameDestN(v, u, nip) /\ Rest(g, v.pay) = resp /\ g[1] = 0 /\ g[2] = 0
 \* q = [spok, shost, sip, sport, payload, resp]: a query handed to the control-channel DNS handler; its server
 \* string must split (SplitHostPort) into the parsed destination - unless that is the virtual DNS address
 \* `vd`, for which the relay substitutes a resolver of its choice
-IsVirtual(u, vd) == u.atyp = 1 /\ u.addr = vd
+IsVirtual(u, vd) == NormIp(u) = V4Mapped(vd)           \* in either encoding (ATYP 1, or ATYP 4 IPv4-mapped)
 QueryOf(u, d, q) == u.st = "result" /\ u.port = 53 /\ q.payload = Rest(d, u.pay)
 ServerOK(u, vd, q) == q.spok /\ (IsVirtual(u, vd) \/ (q.sport = u.port /\ AddrSame(u.atyp, u.addr, q.shost, q.sip)))
 ReplyIs(g, e) == LET v == RefUdp(g) IN DestIs(v, e) /\ Rest(g, v.pay) = e.payload /\ g[1] = 0 /\ g[2] = 0
